@@ -535,6 +535,131 @@ def extract_configuration(repo: Path):
     return checks1 + checks2, [k for k, _ in modes], [k for k, _ in dets]
 
 
+
+# ------------------------------------------------------------------------------------------ Readout.replace
+
+
+def _self_attr_of_key(node, key) -> bool:
+    """self._key or self.key"""
+    return (isinstance(node, ast.Attribute) and isinstance(node.value, ast.Name) and node.value.id == "self"
+            and node.attr in (key, "_" + key))
+
+
+def _is_changes(node, kw) -> bool:
+    return isinstance(node, ast.Name) and node.id == kw
+
+
+def _readout_ctor(node) -> bool:
+    """Readout(...) | type(self)(...) | self.__class__(...)"""
+    return isinstance(node, ast.Call) and ast.unparse(node.func) in ("Readout", "type(self)", "self.__class__")
+
+
+def extract_readout(repo: Path):
+    """(constructor parameters of Readout, the settings Readout.replace carries over to the new object).
+
+    accepted bodies of replace(self, **changes):
+      A  d = {"k": self._k, ...} ; [m = {**d, **changes} | m = d | changes | d.update(changes)] ;
+         return Readout(**m)  (also Readout(**{**d, **changes}), type(self)(...), self.__class__(...))
+      B  return Readout(k=changes.get("k", self._k), ...)
+    `changes` must override the stored values; every value must be the attribute of the same name."""
+    tree = parse(repo, "pyxel/exposure/readout.py")
+    init = find_func(tree, "__init__", "Readout")
+    if init.args.vararg or init.args.kwarg or init.args.posonlyargs:
+        fail(init, "Readout constructor signature")
+    params = [a.arg for a in init.args.args[1:]] + [a.arg for a in init.args.kwonlyargs]
+    rep = find_func(tree, "replace", "Readout")
+    if rep.args.kwarg is None or rep.args.vararg or len(rep.args.args) != 1 or rep.args.kwonlyargs:
+        fail(rep, "Readout.replace signature (expected (self, **changes))")
+    kw = rep.args.kwarg.arg
+    dicts: dict[str, list[str]] = {}     # name -> keys it holds from self
+    merged: set[str] = set()             # names into which `changes` has been merged (changes last)
+
+    def dict_keys(node):
+        """{"k": self._k, ...} -> [k, ...]"""
+        if not isinstance(node, ast.Dict) or any(k is None for k in node.keys):
+            return None
+        keys = []
+        for k, v in zip(node.keys, node.values):
+            if not (isinstance(k, ast.Constant) and isinstance(k.value, str)):
+                return None
+            if not _self_attr_of_key(v, k.value):
+                fail(v, f"Readout.replace: the value carried for {k.value!r} is not the attribute of that name")
+            keys.append(k.value)
+        return keys
+
+    def merge_expr(node):
+        """{**d, **changes} | d | changes | dict(d, **changes)  -> keys of d (changes override)"""
+        if isinstance(node, ast.Dict) and len(node.keys) == 2 and node.keys == [None, None]:
+            a, b = node.values
+            if _is_changes(b, kw):
+                if isinstance(a, ast.Name) and a.id in dicts:
+                    return dicts[a.id]
+                return dict_keys(a)
+            if _is_changes(a, kw):
+                fail(node, "Readout.replace: the stored values override the requested changes")
+        if isinstance(node, ast.BinOp) and isinstance(node.op, ast.BitOr) and _is_changes(node.right, kw):
+            if isinstance(node.left, ast.Name) and node.left.id in dicts:
+                return dicts[node.left.id]
+            return dict_keys(node.left)
+        if (isinstance(node, ast.Call) and isinstance(node.func, ast.Name) and node.func.id == "dict"
+                and len(node.args) == 1 and isinstance(node.args[0], ast.Name) and node.args[0].id in dicts
+                and len(node.keywords) == 1 and node.keywords[0].arg is None and _is_changes(node.keywords[0].value, kw)):
+            return dicts[node.args[0].id]
+        return None
+
+    carried = None
+    for st in body_no_doc(rep):
+        nm, val = assigned(st)
+        if nm is not None:
+            ks = dict_keys(val)
+            if ks is not None:
+                dicts[nm] = ks
+                merged.discard(nm)
+                continue
+            ks = merge_expr(val)
+            if ks is not None:
+                dicts[nm] = ks
+                merged.add(nm)
+                continue
+            fail(st, "Readout.replace: unsupported assignment")
+        if (isinstance(st, ast.Expr) and isinstance(st.value, ast.Call) and isinstance(st.value.func, ast.Attribute)
+                and st.value.func.attr == "update" and isinstance(st.value.func.value, ast.Name)
+                and st.value.func.value.id in dicts and len(st.value.args) == 1 and not st.value.keywords
+                and _is_changes(st.value.args[0], kw)):
+            merged.add(st.value.func.value.id)
+            continue
+        if isinstance(st, ast.Return) and _readout_ctor(st.value):
+            call = st.value
+            if call.args:
+                fail(st, "Readout.replace: positional arguments")
+            if len(call.keywords) == 1 and call.keywords[0].arg is None:
+                v = call.keywords[0].value
+                if isinstance(v, ast.Name) and v.id in dicts and v.id in merged:
+                    carried = dicts[v.id]
+                else:
+                    carried = merge_expr(v)
+                if carried is None:
+                    fail(st, "Readout.replace: the constructor arguments are not <stored settings> overridden by **changes")
+            elif call.keywords and all(k.arg is not None for k in call.keywords):
+                carried = []
+                for k in call.keywords:
+                    v = k.value
+                    okv = (isinstance(v, ast.Call) and isinstance(v.func, ast.Attribute) and v.func.attr == "get"
+                           and _is_changes(v.func.value, kw) and len(v.args) == 2 and not v.keywords
+                           and isinstance(v.args[0], ast.Constant) and v.args[0].value == k.arg
+                           and _self_attr_of_key(v.args[1], k.arg))
+                    if not okv:
+                        fail(v, f"Readout.replace: argument {k.arg!r} is not changes.get({k.arg!r}, self._{k.arg})")
+                    carried.append(k.arg)
+            else:
+                fail(st, "Readout.replace: unsupported constructor call")
+            break
+        fail(st, "Readout.replace: unsupported statement")
+    if carried is None:
+        fail(rep, "Readout.replace: no `return Readout(...)` found")
+    return params, carried
+
+
 # ------------------------------------------------------------------------------------------ entry
 
 
@@ -568,6 +693,9 @@ def translate(repo: Path) -> str:
     out += "Definition src_checks : list presence_check := [\n" + ";\n".join(crow) + "\n].\n"
     out += f"Definition src_mode_dispatch : list string := [{'; '.join(gstr(k) for k in modes)}].\n"
     out += f"Definition src_detector_dispatch : list string := [{'; '.join(gstr(k) for k in dets)}].\n"
+    rparams, carried = extract_readout(repo)
+    out += f"Definition src_readout_params : list string := [{'; '.join(gstr(k) for k in rparams)}].\n"
+    out += f"Definition src_replace_carried : list string := [{'; '.join(gstr(k) for k in carried)}].\n"
     return out
 
 
@@ -653,4 +781,6 @@ Definition src_checks : list presence_check := [
 ].
 Definition src_mode_dispatch : list string := ["exposure"%string; "observation"%string; "calibration"%string].
 Definition src_detector_dispatch : list string := ["ccd_detector"%string; "cmos_detector"%string; "mkid_detector"%string; "apd_detector"%string].
+Definition src_readout_params : list string := ["times"%string; "times_from_file"%string; "start_time"%string; "non_destructive"%string].
+Definition src_replace_carried : list string := ["times"%string; "start_time"%string; "non_destructive"%string].
 '''
